@@ -483,13 +483,19 @@ class Engine:
                 if v and v["status"] == "cerr":
                     n += 1
                     if len(self.compile_errors) < 4:
-                        path = os.path.join(self.faildir, "p_compile_error.C09.%d.cpp" % (len(self.compile_errors) + 1))
+                        # every generated program uses documented forms only and compiles against the unchanged tree on
+                        # every run (same seed, same programs): a tree that rejects one fails the check, with the
+                        # program as the replay (a replay passes again once the program compiles and its checks hold)
+                        path = os.path.join(self.faildir, "p_compile_error.C09.%d.txt" % (len(self.compile_errors) + 1))
                         src, _ = G.emit_tu([s], title="does not compile", support_include=inline_support(), std=tu["tc"].std)
+                        first = next((l for l in v.get("cerr", "").splitlines() if "error" in l), v["detail"])
                         with open(path, "w") as f:
-                            f.write("// compiler=%s std=%s include=%s\n" % (tu["tc"].compiler, tu["tc"].std, REPO))
+                            f.write("# engine=P prop=C09\n# compiler=%s std=%s\n# failing check: generated program does not compile: %s\n# seed=%d salt=%d\n" % (
+                                tu["tc"].compiler, tu["tc"].std, G_one_line(first), self.seed, self.salt))
                             f.write("/* compiler output (head):\n%s\n*/\n" % "\n".join(v.get("cerr", "").splitlines()[:60]).replace("*/", "* /"))
                             f.write(src)
                         self.compile_errors.append((path, v["detail"]))
+                        self.violations.append((path, "%s  [%s %s]  does not compile: %s" % (G.render(s), tu["tc"].compiler, tu["tc"].std, G_one_line(first)[:300])))
         self.labels["functions_not_compiling"] += n
 
     # ----- main
@@ -519,10 +525,6 @@ class Engine:
             for p, m in self.violations:
                 log("VIOLATION property=C09 replay=%s\n  %s" % (p, m))
             return 1
-        if self.compile_errors:
-            for p, m in self.compile_errors:
-                log("harness error: generated program does not compile: %s\n  %s" % (p, m))
-            return 3
         return 0
 
     def write_json(self):
